@@ -656,8 +656,7 @@ package stick
 //@   never "NewSafeValue(" nosafe
 // C08/C09: block(name) and parent() render the block's body at this point of the evaluation, every time (the value is
 // the text rendered now, under the variables of now - not a remembered one)
-//@   asserts@"block" rendered: err == nil ==> called("s.walkBlockBody(")
-//@   asserts@"parent" rendered: err == nil ==> called("s.walkBlockBody(")
+//@   asserts rendered: err == nil && (fnName == "block" || fnName == "parent") ==> called("s.walkBlockBody(")
 // C05: a registered function is called once, with one evaluated value per argument expression
 //@   at "fn(s, args...)" call: len(args) == len(eargs) && fn != nil && !old(in(s.macros, fnName))
 // C11: a from-imported macro reaches callMacro the same way
